@@ -1243,6 +1243,10 @@ class ChoicePayloadDecoder(ConstructedPayloadDecoderBase):
             if not isTagged or component is eoo.endOfOctets:
                 break
 
+        if not len(asn1Object):
+            raise error.PyAsn1Error(
+                'No alternative of CHOICE %s in the substrate' % (tagSet,))
+
         yield asn1Object
 
 
